@@ -4,7 +4,7 @@ use strum_macros::{Display, EnumString};
 
 use crate::{
     device::{Device, DEVICES},
-    expr::Expr,
+    expr::{Expr, ExprRunError},
     parser::{
         parse_file_internal, CodePoint, DataDefine, Item, NextItem, ParseContext, Segment,
         SegmentType,
@@ -212,11 +212,16 @@ impl Directive {
                         bail!("Too many arguments for {}", self);
                     }
                     if let Operand::E(expr) = &args[0] {
-                        if let Ok(n) = expr.run(&context.common_context) {
-                            if n < 0 {
-                                bail!("Negative size for .byte, {}", point);
+                        match expr.run(&context.common_context) {
+                            Ok(n) => {
+                                if n < 0 {
+                                    bail!("Negative size for .byte, {}", point);
+                                }
+                                context.push_to_last((point, Item::ReserveData(n)));
                             }
-                            context.push_to_last((point, Item::ReserveData(n)));
+                            // a name that is not known yet may be defined further down
+                            Err(ExprRunError::MissingIdentifier(_)) => {}
+                            Err(e) => bail!("{}, {}", e, point),
                         }
                     }
                 } else {
@@ -234,6 +239,13 @@ impl Directive {
             }
             Directive::Org => {
                 if let DirectiveOps::OpList(values) = opts {
+                    if let Some(Operand::E(expr)) = values.get(0) {
+                        // a name that is not known yet may be defined further down
+                        match expr.run(&context.common_context) {
+                            Ok(_) | Err(ExprRunError::MissingIdentifier(_)) => {}
+                            Err(e) => bail!("{}, {}", e, point),
+                        }
+                    }
                     if let Some(Ok(value)) = values.get(0).map(|value| match value {
                         Operand::E(expr) => expr.run(&context.common_context).map_err(|_| ()),
                         Operand::S(_) => Err(()),
